@@ -23,17 +23,13 @@ pub const BIG_CASES: &[&str] = &[
     "boxed_collect_u8x16_4MiB",
     "boxed_from_iter_loose_hint_u32_4MiB",
     "try_boxed_from_iter_absent_hint_u32_4MiB",
-    "boxed_map_u32_4MiB",
-    "boxed_zip_u32_4MiB",
     "try_from_vec_u32_4MiB",
-    "boxed_into_iter_roundtrip_u32_4MiB",
     "box_arr_repeat_expr_u64_8MiB",
     "box_arr_repeat_u8x16_4MiB",
     "boxed_generate_dropglue_4MiB",
     "default_boxed_dropglue_4MiB",
     "boxed_from_iter_dropglue_4MiB",
     "box_arr_repeat_dropglue_4MiB",
-    "boxed_map_dropglue_4MiB",
 ];
 /// Few, large elements (an array as large as the whole stack). In an unoptimised build every frame
 /// between the caller's generator and the heap slot holds its own copy of the element, so correct
@@ -157,6 +153,7 @@ pub fn alloc_failure_case(t: &Trace, j: i64) -> (AfVerdict, String) {
     if end.code == Some(0) {
         return match fired {
             Some(0) => (AfVerdict::NotFired, "allocation not reached".into()),
+            None => harness_error(&format!("allocation-failure child exited 0 without reporting FIRED=: {}", end.stdout_tail)),
             _ => (
                 AfVerdict::Violation("C16-alloc-failure-ignored"),
                 "the operation completed normally although an allocation it made returned null".into(),
@@ -205,6 +202,13 @@ fn alloc_failure_traces(seed: u64, tier: &str) -> Vec<Trace> {
             push(e, vec![Op::new(Generate, &[li, 0]), Op::new(ArrBox, &[LAST]), Op::new(Map, &[LAST, 1, 3])]);
             push(e, vec![Op::new(Generate, &[li, 0]), Op::new(ArrBox, &[LAST]), Op::new(Zip, &[LAST, 0, 1, 9])]);
             push(e, vec![Op::new(Generate, &[li, 0]), Op::new(ArrBox, &[LAST]), Op::new(Fold, &[LAST, 1, 3])]);
+            // map to a same-size plain type, collect of a by-value iterator into a Box
+            push(e, vec![Op::new(Generate, &[li, 0]), Op::new(ArrBox, &[LAST]), Op::new(Map, &[LAST, 1, 6])]);
+            push(e, vec![Op::new(Generate, &[li, 0]), Op::new(IntoIter, &[LAST]), Op::new(ItCollect, &[LAST, 2, li])]);
+            // the rejected-length paths (source one longer / one shorter, with spare capacity)
+            push(e, vec![Op::new(VecMake, &[li, 2, 0, 2]), Op::new(VecToBx, &[LAST, 3, li])]);
+            push(e, vec![Op::new(VecMake, &[li, 2, 0, 3]), Op::new(VecToBx, &[LAST, 3, li])]);
+            push(e, vec![Op::new(VecMake, &[li, 1, 0, 2]), Op::new(VecToArr, &[LAST, 3, li])]);
         }
     }
     for which in 0..8u32 {
